@@ -61,7 +61,7 @@ func propConfigs() map[string]*PropConfig {
 	add(&PropConfig{ID: "C28", Prefix: "VH_C28_", StrBytes: 24, Thorough: func(n string) bool { return strings.Contains(n, "_T_") }, Sets: []HarnessSet{hfiles("go/typeutil", "typeutil/c28.go")},
 		Explain: "pattern A/C on concrete type shapes with symbolic attributes: the real typeutil.Identical/identical, Hasher.Hash/hashFor/hashTuple/hashString and Map.Set/At/Delete/Len run on types built with the real go/types-fork constructors (executed from source)"})
 	add(&PropConfig{ID: "C05", Prefix: "VH_C05_", Sets: []HarnessSet{hfiles("fast", fastLib, "fast/c19.go", "fast/c06.go", "fast/c13.go", "fast/c05_switch_gen.go", "fast/c05.go")},
-		Redirect: map[string]string{"github.com/cosmos72/gomacro/gls.GoID": "vhModelGoID", fp + "Comp).Expr": "vhModelExpr", fp + "Comp).Block": "vhModelBlock", fp + "Comp).Stmt": "vhModelStmt",
+		Redirect: map[string]string{"github.com/cosmos72/gomacro/gls.GoID": "vhModelGoID", fp + "Comp).Expr": "vhModelExpr", fp + "Comp).expr1": "vhModelExpr1", fp + "Comp).Block": "vhModelBlock", fp + "Comp).Stmt": "vhModelStmt",
 			fp + "Comp).pushEnvIfLocalBinds": "vhModelPushEnv", fp + "Comp).popEnvIfLocalBinds": "vhModelPopEnv"},
 		Explain: "the real switchGotoMap / switchGotoSlice (per integer kind, symbolic case constants and tag value), Comp.If and Comp.For are executed; sub-expressions and sub-statements are replaced by models that emit marker statements, and the emitted code is run by the real executor"})
 	add(&PropConfig{ID: "C26", Prefix: "VH_C26_", StrBytes: 24, Sets: []HarnessSet{hfiles("base", "base/c26.go")},
